@@ -1021,9 +1021,13 @@ def hardening_stream(ctx, lad):
                 ('float32', lambda M: M.real.astype(np.float32), True, 1e-10),
                 ('longdouble', lambda M: M.real.astype(np.longdouble), True, 1e-10),
                 ('float16', lambda M: M.real.astype(np.float16), True, 1e-10)],
-        'SO': [('complex64', lambda M: M.astype(np.complex64), False, 1e-6),
+        # single-precision one_body: numpy.linalg.eigh and the Givens decomposition of its eigenvectors run in
+        # single precision (eps = 6e-8); angles near 0 / pi lose half the digits (arccos), so the circuit agrees with
+        # the double-precision one to about sqrt(eps) = 2.4e-4 only — compared at 5e-3 (a dropped or altered
+        # entry of the given magnitudes, multiples of 1/4, changes the unitary by >= 1e-1)
+        'SO': [('complex64', lambda M: M.astype(np.complex64), False, 5e-3),
                ('complex128 Fortran', lambda M: np.asfortranarray(M.copy()), False, 1e-10),
-               ('float32', lambda M: M.real.astype(np.float32), True, 1e-6)],
+               ('float32', lambda M: M.real.astype(np.float32), True, 5e-3)],
     }
     for alg in ('LSN', 'SO'):
         for tn, conv, real_only, tol in dtype_variants[alg]:
